@@ -5,15 +5,33 @@
 // UnmarkForDeletion / NominateNodeForPod calls other Karpenter components make). The history is executed
 // several times, each time against a new world and with a different PRNG-chosen delivery schedule of
 // reconcile requests to the REAL state informer controllers (duplicates, postponed keys, deletions seen
-// before older updates, kinds permuted, error/requeue returns honoured; one or more executions deliver
-// different keys from concurrent goroutines). After the last operation
+// before older updates, kinds permuted, error/requeue returns honoured; the last execution - every
+// execution in the -race binary - delivers different keys from concurrent goroutines, concurrently with
+// the API change itself). After the last operation
 //
 //	phase 1  every key whose latest version has not been observed yet is delivered (nothing else), and
 //	phase 2  every key ever known (incl. deletion notifications) is re-delivered until a pass is clean;
 //
 // after each phase every exported view of the tested state.Cluster (plus a read-only reflection digest of
 // its unexported per-pod maps) is compared with a brand-new state.Cluster fed the same API content once
-// in canonical order plus the mark / nomination calls still in force.
+// in canonical order plus the mark / nomination calls still in force. The reference itself is checked
+// against first principles (pods accounted on a node == non-terminal pods bound to it in the API).
+//
+// Marks and nominations are state that is NOT derived from the API. A mark is "in force" when the call
+// found the StateNode (read back right after the call) and no API object of that provider id disappeared
+// or changed key during the history; ids that did lose an object are explicitly unmarked by the history's
+// last operations (whether the mark survives there depends on whether the deletion was observed before
+// the re-creation, i.e. on the schedule) and their nomination is not compared.
+//
+// Domain restrictions (documented, deliberate): live objects keep unique provider ids; NodeClaim names
+// are never reused (generateName in production - re-using one while the new incarnation is unlaunched
+// leaks the old StateNode for good); a pod name keeps its owner kind (daemon / non-daemon); PVCs, PVs,
+// StorageClasses, CSINodes and NodePools are static (the informers do not watch them); a Node that is
+// re-created under a used name starts with provider id and instance-type label (the other shape is
+// covered by scripted history 4 of case 0); the daemonset template-pod cache and unresolvable entries of
+// the bindings map are compared as diagnostics only.
+//
+// Case 0 executes five scripted minimal histories, one per class of divergence found on the pinned tree.
 package c11
 
 import (
@@ -48,9 +66,9 @@ func sortStrings(s []string) { sort.Strings(s) }
 
 func cases(tier string) int {
 	if tier == "thorough" {
-		return 6000
+		return nDirected + 6000
 	}
-	return 400
+	return nDirected + 400
 }
 
 func orders(tier string) int {
@@ -947,6 +965,9 @@ func (x *runner) compare(idx int, phase string, ref *reference) (nDiffs int) {
 	var order []string
 	for _, d := range ds {
 		k := x.classify(d, got, ref.view, untracked)
+		if x.h.ForceKey != "" {
+			k = x.h.ForceKey
+		}
 		if _, ok := byKey[k]; !ok {
 			order = append(order, k)
 		}
@@ -978,7 +999,7 @@ func (x *runner) compare(idx int, phase string, ref *reference) (nDiffs int) {
 	return len(ds)
 }
 
-func runOne(r *mon.Report, h *history, idx, ord int, conc bool, seed int64) {
+func runOne(r *mon.Report, h *history, idx, ord int, conc bool, seed int64) (statenodes int) {
 	rng := rand.New(rand.NewSource(seed))
 	e := world.NewEnv(rand.New(rand.NewSource(seed ^ 0x5eed)))
 	e.API.Yield = conc
@@ -999,7 +1020,9 @@ func runOne(r *mon.Report, h *history, idx, ord int, conc bool, seed int64) {
 	for i := range h.Ops {
 		o := &h.Ops[i]
 		var batch []dkey
-		if !o.Glue {
+		if h.Scripted {
+			batch = o.Deliver
+		} else if !o.Glue {
 			batch = x.chooseBatch()
 		}
 		x.round(o, batch)
@@ -1011,8 +1034,9 @@ func runOne(r *mon.Report, h *history, idx, ord int, conc bool, seed int64) {
 	ref := x.buildReference()
 	if ref.err != nil {
 		r.Violate("panic-or-error-in-fresh-recompute", ref.err.Error(), x.caseDesc(idx), nil)
-		return
+		return 0
 	}
+	statenodes = len(ref.view.Nodes)
 	if ds := x.apiTruth(ref); len(ds) > 0 {
 		r.Violate("fresh-recompute-disagrees-with-api", fmt.Sprintf("the from-scratch state does not match the API content: %s = %s, API says %s", ds[0].Field, ds[0].Got, ds[0].Want), x.caseDesc(idx), ds)
 	}
@@ -1049,6 +1073,7 @@ func runOne(r *mon.Report, h *history, idx, ord int, conc bool, seed int64) {
 		cd["marks_in_force"] = ref.marks
 		r.Sample(cd)
 	}
+	return statenodes
 }
 
 func (x *runner) reportPanics(idx int) {
@@ -1061,6 +1086,20 @@ func (x *runner) reportPanics(idx int) {
 }
 
 func run(r *mon.Report, tier string, idx int, rng *rand.Rand) {
+	if idx < nDirected {
+		// case 0: the four scripted minimal histories (so that their witnesses come first in every report)
+		r.Eval()
+		for which := 0; which < nDirectedHistories; which++ {
+			h := directedHistory(which)
+			r.Inc("histories_directed")
+			_ = runOne(r, h, idx, which, false, rng.Int63())
+			for f := range h.Features {
+				r.Inc("feature:" + f)
+			}
+		}
+		r.Sig("directed")
+		return
+	}
 	h := genHistory(rng)
 	r.Eval()
 	r.Inc("histories")
@@ -1072,9 +1111,14 @@ func run(r *mon.Report, tier string, idx int, rng *rand.Rand) {
 	}
 	sort.Strings(fs)
 	n := orders(tier)
+	compared := 0
 	for ord := 0; ord < n; ord++ {
 		conc := raceBuild || ord == n-1
-		runOne(r, h, idx, ord, conc, rng.Int63())
+		compared += runOne(r, h, idx, ord, conc, rng.Int63())
+	}
+	if compared == 0 {
+		r.Inc("histories_trivial_no_statenode_at_the_end")
+		return
 	}
 	r.Sig("n%d-c%d-p%d-d%d|%s", h.NNodes, h.NClaims, h.NPods, h.NDS, strings.Join(fs, "+"))
 }
@@ -1082,8 +1126,9 @@ func run(r *mon.Report, tier string, idx int, rng *rand.Rand) {
 func init() {
 	reg.Register(&reg.Prop{
 		ID: "C11", Level: "exploration", Race: true, RaceIsViolation: true,
-		Rule: "a case = one PRNG history of 10..60 operations over <=4 Nodes, <=4 NodeClaims, <=10 Pods, <=2 DaemonSets (create/update/delete, providerID filled after creation on Node and NodeClaim, Node before/after its NodeClaim, registered/initialized labels flipping, finalizers + deletionTimestamp, pods bound / terminal / daemon-owned / re-created under the same name on another node, host ports, PVC volumes with CSINode limits, deletion-cost annotations and priorities, MarkForDeletion/UnmarkForDeletion/NominateNodeForPod, clock steps) executed under 3 (quick) or 5 (thorough) delivery schedules against the real state informer controllers (the last one, and all of them in the -race binary, with concurrent deliveries); after the last operation the exported views and a reflection digest of the tested state.Cluster are compared with a brand-new Cluster fed the same API content once in canonical order, first when exactly the not-yet-observed keys were delivered, then after a full re-delivery. Every executed history is non-trivial (at least one StateNode view is compared); signatures are distinct by (object counts, set of history features).",
-		Cases: cases, Run: run,
+		RaceFrac: map[string]float64{"quick": 0.5, "thorough": 0.2},
+		Rule:     "a case = one PRNG history of 10..60 operations over <=4 Nodes, <=4 NodeClaims, <=10 Pods, <=2 DaemonSets (create/update/delete, providerID filled after creation on Node and NodeClaim, Node before/after its NodeClaim, registered/initialized labels flipping, finalizers + deletionTimestamp, pods bound / terminal / daemon-owned / re-created under the same name on another node, host ports, PVC volumes with CSINode limits, deletion-cost annotations and priorities, MarkForDeletion/UnmarkForDeletion/NominateNodeForPod, clock steps) executed under 3 (quick) or 5 (thorough) delivery schedules against the real state informer controllers (the last one, and all of them in the -race binary, with concurrent deliveries); after the last operation the exported views and a reflection digest of the tested state.Cluster are compared with a brand-new Cluster fed the same API content once in canonical order, first when exactly the not-yet-observed keys were delivered, then after a full re-delivery. Case 0 = five scripted minimal histories. A history is non-trivial when at least one StateNode of the reference was compared in at least one execution; signatures are distinct by (object counts, set of history features).",
+		Cases:    cases, Run: run,
 		MinObserved: map[string]int{
 			"runs": 100, "comparisons": 100, "statenodes_compared": 200, "deliveries_duplicate": 50, "deliveries_deletion_notification": 50,
 			"deletion_seen_before_older_update": 5, "postponed_key_delivered_late": 5, "deliveries_requeue": 5,
